@@ -31,6 +31,8 @@ CORPUS_MUST_RAISE = ['Foo', 'U:99999', 'UNIMOD:xyz', 'M:notaname', 'X:99999', 'R
                      'Formula:xH0', 'Glycan:xHex', 'Glycan:Hex Hex',
                      # a second colon field
                      'Formula:C2:H2', 'Glycan:Hex:2', 'Glycan:Hex:Foo', 'Obs:1:5', 'Obs:+1:x', 'U:+1:5', 'U:35:x',
+                     # an accession that exists in ANOTHER vocabulary (asked after that vocabulary resolved it)
+                     'R:1', 'G:1', 'R:21', 'G:35', 'X:35', 'R:Acetyl', 'G:Phospho',
                      # an isotope bracket holding more than one element (was read up to the first count: D28)
                      'Formula:[13C2H3]', 'Formula:[13C2 ]', 'Formula:C2[13C1H]', 'Formula:[2H2O]',
                      # an empty value / an empty alternative beside an unresolvable one
@@ -44,7 +46,9 @@ COMP_KEEPS_UNKNOWN_SYMBOL = {'Formula:Zz2', 'INFO:a|Formula:Zz2'}
 SLOTS = ['labile', 'static', 'unknown', 'nterm', 'r0', 'iv', 'cterm', 'rlast',
          'static:C', 'static:N-Term', 'static:C-Term', 'static+13C', 'static:C+13C',
          # the unresolvable value next to a resolvable global rule on the same place
-         'cterm+rule', 'nterm+rule', 'rlast+rule', 'static-first-of-two', 'static-second-of-two']   # static:C = rule on a residue the peptide lacks
+         'cterm+rule', 'nterm+rule', 'rlast+rule', 'static-first-of-two', 'static-second-of-two',
+         # the unresolvable value on a range that follows a range without modifications / a resolvable range
+         'iv-after-plain-iv', 'iv-after-resolvable-iv']   # static:C = rule on a residue the peptide lacks
 
 
 def describe(tier):
@@ -254,8 +258,16 @@ def check(case, ctx):
                 slots['isotope'] = ['13C']
         elif slot == 'iv':
             slots = {'iv': [[0, 2, False, mods]]}
+        elif slot == 'iv-after-plain-iv':
+            slots = {'iv': [[0, 1, True, None], [1, 3, False, mods]]}
+        elif slot == 'iv-after-resolvable-iv':
+            slots = {'iv': [[0, 1, False, [['Acetyl', 1]]], [2, 3, False, mods]]}
         P = c01.build(seq, slots)
         s = pmodel.render(P, False)
+        # history: the bundled vocabularies have resolved these accessions / names before the unresolvable value is asked
+        for primer in ('U:1', 'U:21', 'U:35', 'M:00719', 'U:Acetyl', 'U:Phospho', 'X:02001'):
+            lib.call(p.mod_mass, primer)
+        lib.call(p.mass, 'PEK[U:1][UNIMOD:35]')
         plain = p.mass(seq)
         absent = slot.startswith('static:C') and not slot.startswith('static:C-Term')
         st, a = lib.call(p.parse, s)
